@@ -296,7 +296,7 @@ pub fn gen_case(t: &mut Tape) -> Case {
 pub fn run(r: &mut Runner) -> &'static str {
     r.rule = "inputs: tuples (source address, destination address, source port, destination port) for IPv4 and IPv6, two Unix paths, flow-info / scope ids, with pairwise distinct components (so a transposition is visible). \
               oracle: after IPv4::new (T = Ipv4Addr, [u8;4], u32), IPv6::new (Ipv6Addr, [u16;8], [u8;16], u128), v1 new_tcp4 / new_tcp6, Unix::new, every From<IPv4|IPv6|Unix> and From<(SocketAddr, SocketAddr)> for v1 and v2 \
-              (V4/V4, V6/V6 with any flow / scope, mixed both ways), each public field equals the like-named argument; mixed pairs give Unknown / Unspecified; v1 and v2 conversions agree. non-trivial = all components pairwise distinct; distinct by SipHash"
+              (V4/V4, V6/V6 with any flow / scope, mixed both ways), each public field equals the like-named argument; mixed pairs give Unknown / Unspecified; v1 and v2 conversions agree. non-trivial = all components pairwise distinct; distinct by SipHash Added later: special values (unspecified / loopback / mapped / link-local with zone-like groups, equal endpoints, all-zero tuples), Unix path classes, v1::Header::new."
         .into();
     let n = r.n(300_000, 5_000_000);
     r.random("c19.constructors", n, 64, &gen_case, &judge);
